@@ -41,6 +41,7 @@ def check_placement(res, gr, results):
 
 def check(res):
     kf.lowercase_collision(res, "C09", known_findings("C09"))
+    kf.element_struct_markers(res, "C09", known_findings("C09"))
     corpus = corpora.c09(res.seed, res.tier)
     cl = kf.make_classifier(res, "C09", known_findings("C09"))
 
